@@ -1922,7 +1922,7 @@ func runC05(env *Env) {
 	}
 	g.intRepr(9007199254740993, 0)
 	g.intRepr(60032052788413712, 1)
-	{ // class 10: typeof (1 ? nope : 0), and (1 ? o.f : 0)() with this = o
+	{ // repaired (07b2f1f): typeof (1 ? nope : 0) throws, (1 ? o.f : 0)() runs with the global object as this
 		g.runCase([3]value{pv(pUndef()), pv(pUndef()), pv(pUndef())}, un(4, cond(lit(num(1)), &expr{kind: eUnres}, lit(num(0)))), "pinned", true)
 		g.nextID++
 		o := &obj{id: g.nextID, base: "{}", chain: []int64{90}, fproto: -1, vo: meth{inherit: true}, ts: meth{inherit: true}, hasX: true, memX: pNum(5)}
